@@ -113,6 +113,7 @@ package sql
 //@   modifies p.cur
 //@   ensures[tl] PL(p) && p.cur >= old(p.cur)
 //@   decreases pmeasure(p) * 32 + 20
+//@   ensures[wf; C18] err == nil ==> stmtWF(result0)
 
 //@ func (p *Parser) Show() (interface{}, error)
 //@   props C09
@@ -120,6 +121,7 @@ package sql
 //@   modifies p.cur
 //@   ensures[tl] PL(p) && p.cur >= old(p.cur)
 //@   decreases pmeasure(p) * 32 + 19
+//@   ensures[kind; C18] err == nil ==> typeof(result0) == typ(ShowDatabase)
 
 //@ func (p *Parser) ShowDatabase() (ShowDatabase, error)
 //@   props C09
@@ -134,6 +136,7 @@ package sql
 //@   modifies p.cur
 //@   ensures[tl] PL(p) && p.cur >= old(p.cur)
 //@   decreases pmeasure(p) * 32 + 19
+//@   ensures[kind; C18] err == nil ==> typeof(result0) == typ(CreateDatabase) || typeof(result0) == typ(CreateTable)
 
 //@ func (p *Parser) CreateDatabase() (CreateDatabase, error)
 //@   props C09
@@ -165,6 +168,7 @@ package sql
 //@   modifies p.cur
 //@   ensures[tl] PL(p) && p.cur >= old(p.cur)
 //@   decreases pmeasure(p) * 32 + 18
+//@   ensures[wf; C18] err == nil ==> selWF(result0)
 
 //@ func (p *Parser) SortSpecificationList() ([]SortSpecification, error)
 //@   props C09
@@ -184,6 +188,7 @@ package sql
 //@   decreases pmeasure(p) * 32 + 17
 //@   loop 1 invariant PL(p) && p.cur >= old(p.cur)
 //@   loop 1 decreases pmeasure(p)
+//@   ensures[nonneg; C18] err == nil ==> result0.Limit >= 0 && result0.Offset >= 0
 
 //@ func (p *Parser) TableExpression() (TableExpression, bool, error)
 //@   props C09
@@ -191,6 +196,7 @@ package sql
 //@   modifies p.cur
 //@   ensures[tl] PL(p) && p.cur >= old(p.cur)
 //@   decreases pmeasure(p) * 32 + 17
+//@   ensures[wf; C18] err == nil ==> (len(result0.FromClause) >= 1 ==> tfWF(result0.FromClause[0])) && (result0.WhereClause == nil || typeof(result0.WhereClause) == typ(WhereClause))
 
 //@ func (p *Parser) FromClause() (FromClause, bool, error)
 //@   props C09
@@ -200,6 +206,8 @@ package sql
 //@   decreases pmeasure(p) * 32 + 16
 //@   loop 1 invariant PL(p) && p.cur >= old(p.cur)
 //@   loop 1 decreases pmeasure(p)
+//@   ensures[wf; C18] err == nil ==> (result1 ==> len(result0) == 1 && tfWF(result0[0])) && (!result1 ==> len(result0) == 0)
+//@   loop 1 invariant tfWF(tblRef)
 
 //@ func (p *Parser) WhereClause() (interface{}, error)
 //@   props C09
@@ -207,6 +215,7 @@ package sql
 //@   modifies p.cur
 //@   ensures[tl] PL(p) && p.cur >= old(p.cur)
 //@   decreases pmeasure(p) * 32 + 16
+//@   ensures[wf; C18] result0 == nil || typeof(result0) == typ(WhereClause)
 
 //@ func (p *Parser) GroupByClause() ([]ColumnReference, error)
 //@   props C09
@@ -226,6 +235,8 @@ package sql
 //@   decreases pmeasure(p) * 32 + 14
 //@   loop 1 invariant PL(p) && p.cur >= old(p.cur)
 //@   loop 1 decreases pmeasure(p)
+//@   ensures[kind; C10 C18] err == nil ==> exprKind(result0)
+//@   loop 1 invariant exprKind(ret)
 
 //@ func (p *Parser) AndCondition() (interface{}, error)
 //@   props C09
@@ -235,6 +246,8 @@ package sql
 //@   decreases pmeasure(p) * 32 + 13
 //@   loop 1 invariant PL(p) && p.cur >= old(p.cur)
 //@   loop 1 decreases pmeasure(p)
+//@   ensures[kind; C10 C18] err == nil ==> exprKind(result0)
+//@   loop 1 invariant exprKind(ret)
 
 //@ func (p *Parser) Predicate() (interface{}, error)
 //@   props C09
@@ -242,6 +255,7 @@ package sql
 //@   modifies p.cur
 //@   ensures[tl] PL(p) && p.cur >= old(p.cur)
 //@   decreases pmeasure(p) * 32 + 12
+//@   ensures[kind; C10 C18] err == nil ==> exprKind(result0)
 
 //@ func (p *Parser) ComparisonPredicate() (interface{}, error)
 //@   props C09
@@ -249,6 +263,7 @@ package sql
 //@   modifies p.cur
 //@   ensures[tl] PL(p) && p.cur >= old(p.cur)
 //@   decreases pmeasure(p) * 32 + 11
+//@   ensures[kind; C10 C18] err == nil ==> exprKind(result0)
 
 //@ func (p *Parser) ValueExpression() (ValueExpression, error)
 //@   props C09
@@ -256,6 +271,7 @@ package sql
 //@   modifies p.cur
 //@   ensures[tl] PL(p) && p.cur >= old(p.cur)
 //@   decreases pmeasure(p) * 32 + 10
+//@   ensures[kind; C10 C18] err == nil ==> exprKind(result0)
 
 //@ func (p *Parser) ColumnReference() (bool, ColumnReference, error)
 //@   props C09
@@ -274,6 +290,8 @@ package sql
 //@   loop 1 invariant PL(p) && p.cur >= old(p.cur)
 //@   loop 1 invariant sl == nil || fresh(sl)
 //@   loop 1 decreases pmeasure(p)
+//@   ensures[wf; C18] err == nil ==> len(result0) >= 1 && avgArgsOK(result0)
+//@   loop 1 invariant avgArgsOK(sl)
 
 //@ func (p *Parser) DerivedColumn() (DerivedColumn, error)
 //@   props C09
@@ -281,6 +299,7 @@ package sql
 //@   modifies p.cur
 //@   ensures[tl] PL(p) && p.cur >= old(p.cur)
 //@   decreases pmeasure(p) * 32 + 16
+//@   ensures[avg; C18] err == nil && typeof(result0.ValueExpressionPrimary) == typ(Average) ==> typeof(result0.ValueExpressionPrimary.(Average).ValueExpression) == typ(ColumnReference)
 
 //@ func (p *Parser) SetFunctionSpecification() (bool, any, error)
 //@   props C09
@@ -289,6 +308,8 @@ package sql
 //@   ensures[tl] PL(p) && p.cur >= old(p.cur)
 //@   decreases pmeasure(p) * 32 + 15
 //@   ensures[consumes] result0 ==> p.cur > old(p.cur)
+//@   ensures[avg; C18] err == nil && result0 && typeof(result1) == typ(Average) ==> typeof(result1.(Average).ValueExpression) == typ(ColumnReference)
+//@   ensures[kinds] err == nil && result0 ==> typeof(result1) == typ(Average) || typeof(result1) == typ(Count)
 
 //@ func (p *Parser) TableName() (TableName, error)
 //@   props C09
@@ -296,6 +317,7 @@ package sql
 //@   modifies p.cur
 //@   ensures[tl] PL(p) && p.cur >= old(p.cur)
 //@   decreases pmeasure(p) * 32 + 15
+//@   ensures[corr; C18] err == nil ==> (result0.CorrelationName == nil || typeof(result0.CorrelationName) == typ(string))
 
 //@ func (p *Parser) Insert() (InsertStatement, error)
 //@   props C09
@@ -313,6 +335,7 @@ package sql
 //@   loop 3 invariant tvc.TableValueConstructorList == nil || fresh(tvc.TableValueConstructorList)
 //@   loop 3 invariant rvc.RowValueConstructorList == nil || fresh(rvc.RowValueConstructorList)
 //@   loop 3 decreases pmeasure(p)
+//@   ensures[wf; C18] err == nil ==> typeof(result0.InsertColumnsAndSource.QueryExpression) == typ(TableValueConstructor)
 
 //@ func (p *Parser) Update() (UpdateStatementSearched, error)
 //@   props C09
@@ -323,6 +346,7 @@ package sql
 //@   loop 1 invariant PL(p) && p.cur >= old(p.cur)
 //@   loop 1 invariant us.Set == nil || fresh(us.Set)
 //@   loop 1 decreases pmeasure(p)
+//@   ensures[wf; C18] result0.Where == nil || typeof(result0.Where) == typ(WhereClause)
 
 //@ func (p *Parser) Use() (UseStatement, error)
 //@   props C09
@@ -337,6 +361,7 @@ package sql
 //@   modifies p.cur
 //@   ensures[tl] PL(p) && p.cur >= old(p.cur)
 //@   decreases pmeasure(p) * 32 + 18
+//@   ensures[wf; C18] result0.WhereClause == nil || typeof(result0.WhereClause) == typ(WhereClause)
 
 //@ func syntaxErr(t Token) error
 //@   props C09
@@ -411,3 +436,23 @@ package sql
 //@   pure
 //@   ensures len(text) >= 2 ==> result == text[1:len(text)-1]
 //@   ensures len(text) < 2 ==> result == ""
+
+// ---- well-formedness of parsed statements (what the executor relies on; C18 via C09/C10) ----
+
+//@ spec pred exprKind(v any) { v == nil || typeof(v) == typ(int64) || typeof(v) == typ(string) || typeof(v) == typ(bool) || typeof(v) == typ(ColumnReference) ||
+//@        typeof(v) == typ(ComparisonPredicate) || typeof(v) == typ(Predicate) || typeof(v) == typ(BooleanTerm) || typeof(v) == typ(SearchCondition) }
+//@ spec abstract tfWF(tf any)
+//@ axiom tfWF.def: forall tf any :: tfWF(tf) <==>
+//@        ((typeof(tf) == typ(TableName) ==> (tf.(TableName).CorrelationName == nil || typeof(tf.(TableName).CorrelationName) == typ(string))) &&
+//@         (typeof(tf) == typ(QualifiedJoin) ==> tfWF(tf.(QualifiedJoin).LHS) && tfWF(tf.(QualifiedJoin).RHS)))
+//@ spec pred avgArgsOK(sl SelectList) { forall i int :: 0 <= i && i < len(sl) && typeof(sl[i].ValueExpressionPrimary) == typ(Average) ==>
+//@        typeof(sl[i].ValueExpressionPrimary.(Average).ValueExpression) == typ(ColumnReference) }
+//@ spec pred selWF(q Select) { len(q.SelectList) >= 1 && avgArgsOK(q.SelectList) &&
+//@        (len(q.TableExpression.FromClause) >= 1 ==> tfWF(q.TableExpression.FromClause[0])) &&
+//@        (q.TableExpression.WhereClause == nil || typeof(q.TableExpression.WhereClause) == typ(WhereClause)) &&
+//@        q.LimitOffsetClause.Limit >= 0 && q.LimitOffsetClause.Offset >= 0 }
+//@ spec pred stmtWF(s any) {
+//@        (typeof(s) == typ(Select) ==> selWF(s.(Select))) &&
+//@        (typeof(s) == typ(InsertStatement) ==> typeof(s.(InsertStatement).InsertColumnsAndSource.QueryExpression) == typ(TableValueConstructor)) &&
+//@        (typeof(s) == typ(UpdateStatementSearched) ==> (s.(UpdateStatementSearched).Where == nil || typeof(s.(UpdateStatementSearched).Where) == typ(WhereClause))) &&
+//@        (typeof(s) == typ(DeleteStatementSearched) ==> (s.(DeleteStatementSearched).WhereClause == nil || typeof(s.(DeleteStatementSearched).WhereClause) == typ(WhereClause))) }
